@@ -276,7 +276,7 @@ Definition accept (s : state) (r tok : Z) (con : bool) : state :=
   let s := set_gidctr s (gid + 1) in
   let s := set_observers s (s_observers s ++ [gid]) in
   let s := log s (OAdd gid (Z.of_nat (length (s_observers s))) r tok con) in
-  let g := mkreg r tok gid con PWait 0 None false in
+  let g := mkreg r tok gid con PWait (-1) None false in   (* next_observation_number not assigned yet *)
   let s := set_regs s (s_regs s ++ [g]) in
   let s := log s (ORender gid (s_version s)) in
   if s_gate s then put_reg s (set_phase g (PFirst (s_version s)))
